@@ -420,6 +420,9 @@ pub mod hash_map {
         pub fn values(&self) -> impl Iterator<Item = &V> {
             self.iter().map(|(_, v)| v)
         }
+        pub fn values_mut(&mut self) -> impl Iterator<Item = &mut V> {
+            self.iter_mut().map(|(_, v)| v)
+        }
         fn remove_at(&mut self, i: usize) -> (K, V) {
             let r = self.items[i].take().unwrap();
             let mut j = i + 1;
